@@ -1,6 +1,7 @@
 INIT OInit
 NEXT ONext
 INVARIANT C05_Applied
+INVARIANT C05_Solvable
 INVARIANT C05_Eq
 INVARIANT C05_Sum
 INVARIANT C05_Ren
